@@ -712,6 +712,23 @@ class _Inliner(object):
             self._blocks(st, scope)  # compound statements: their blocks first
         if not any(k == "func" for k, _ in scope) or depth > 8:
             return [st]
+        # x = A if C else B with a call of a new helper in an arm: as a statement (`if C: x = A else: x = B`) the call is
+        # in a position where it can be inlined
+        if isinstance(st, ast.Assign) and len(st.targets) == 1 and _simple_target(st.targets[0]) and isinstance(st.value, ast.IfExp):
+            def has_new(e):
+                for c_ in ast.walk(e):
+                    if isinstance(c_, ast.Call):
+                        q_, r_ = self._callee_of(c_, scope)
+                        if q_ is not None and self._inlinable(q_, r_, scope) is not None:
+                            return True
+                return False
+            if has_new(st.value.body) or has_new(st.value.orelse):
+                def mk(v):
+                    return ast.fix_missing_locations(ast.copy_location(ast.Assign(targets=[copy.deepcopy(st.targets[0])], value=v, lineno=st.lineno), st))
+                new_if = ast.fix_missing_locations(ast.copy_location(ast.If(test=st.value.test, body=[mk(st.value.body)], orelse=[mk(st.value.orelse)]), st))
+                self.log.append("conditional expression with a helper call turned into a statement at line %d" % getattr(st, "lineno", 0))
+                self._blocks(new_if, scope)
+                return [new_if]
         st = self._subst_expr_helpers(st, scope)
         call, ctx = None, None
         if isinstance(st, ast.Expr) and isinstance(st.value, ast.Call):
@@ -727,6 +744,8 @@ class _Inliner(object):
             # a helper call nested in the statement's expression: hoist it when it is the first thing evaluated
             field = {ast.Expr: "value", ast.Assign: "value", ast.AnnAssign: "value", ast.Return: "value", ast.If: "test",
                      ast.For: "iter"}.get(type(st))
+            if isinstance(st, ast.AugAssign) and isinstance(st.target, ast.Name):
+                field = "value"  # a local name is not changed by evaluating the right-hand side first
             expr = getattr(st, field, None) if field else None
             if expr is None:
                 return [st]
@@ -864,6 +883,22 @@ def unroll_reflective_loops(tree):
         if isinstance(st, ast.Assign) and len(st.targets) == 1 and isinstance(st.targets[0], ast.Name) and isinstance(st.value, (ast.Tuple, ast.List)):
             if st.value.elts and all(isinstance(e, ast.Constant) and isinstance(e.value, str) for e in st.value.elts):
                 consts[st.targets[0].id] = None if st.targets[0].id in consts else st.value
+    # class-level tuples of names (`_FIELDS = ("a", "b")` in a class body), reached as self.X / cls.X / Class.X
+    cls_consts = {}
+    for c_ in tree.body:
+        if isinstance(c_, ast.ClassDef):
+            seen_ = {}
+            for st in c_.body:
+                if isinstance(st, ast.Assign) and len(st.targets) == 1 and isinstance(st.targets[0], ast.Name):
+                    nm_ = st.targets[0].id
+                    seen_[nm_] = seen_.get(nm_, 0) + 1
+                    if isinstance(st.value, (ast.Tuple, ast.List)) and st.value.elts and all(
+                            isinstance(e, ast.Constant) and isinstance(e.value, str) for e in st.value.elts):
+                        cls_consts[(c_.name, nm_)] = st.value
+            for (cn_, nm_) in [k for k in cls_consts if k[0] == c_.name]:
+                if seen_.get(nm_) != 1 or any(isinstance(x, ast.Attribute) and x.attr == nm_ and isinstance(x.ctx, ast.Store) for x in ast.walk(c_)):
+                    del cls_consts[(cn_, nm_)]
+    cur_cls = [None]
     log = []
 
     class Fold(ast.NodeTransformer):
@@ -906,6 +941,10 @@ def unroll_reflective_loops(tree):
                 it = st.iter
                 if isinstance(it, ast.Name) and consts.get(it.id) is not None:
                     it = consts[it.id]
+                elif isinstance(it, ast.Attribute) and isinstance(it.value, ast.Name):
+                    owner_ = cur_cls[0] if it.value.id in ("self", "cls") else it.value.id
+                    if (owner_, it.attr) in cls_consts:
+                        it = cls_consts[(owner_, it.attr)]
                 if isinstance(it, (ast.Tuple, ast.List)) and 0 < len(it.elts) <= 8 and all(
                         isinstance(e, ast.Constant) and isinstance(e.value, str) for e in it.elts) and (
                         reflective_only(st.body, st.target.id) or not any(isinstance(x, ast.Name) and x.id == st.target.id and isinstance(x.ctx, ast.Store)
@@ -920,9 +959,17 @@ def unroll_reflective_loops(tree):
             out.append(st)
         return out
 
-    for n in ast.walk(tree):
-        if isinstance(n, FUNC):
-            n.body = visit_block(n.body)
+    def do(node, cls_name):
+        for ch in ast.iter_child_nodes(node):
+            if isinstance(ch, ast.ClassDef):
+                do(ch, ch.name)
+            elif isinstance(ch, FUNC):
+                cur_cls[0] = cls_name
+                ch.body = visit_block(ch.body)
+                do(ch, cls_name)
+            else:
+                do(ch, cls_name)
+    do(tree, None)
     if log:
         ast.fix_missing_locations(tree)
     return log
@@ -951,6 +998,97 @@ def inline_new_helpers(tree, modname):
             if isinstance(n, FUNC):
                 _fold_temps(n)
     ast.fix_missing_locations(tree)
+    return log
+
+
+# ------------------------------------------------------------------ local names for a callable
+def _simple_lambda(e):
+    """lambda a, b: <expression without nested scopes>"""
+    if not isinstance(e, ast.Lambda):
+        return False
+    a = e.args
+    if a.vararg or a.kwarg or a.posonlyargs or a.kwonlyargs or a.defaults:
+        return False
+    return not any(isinstance(n, (ast.Lambda, ast.ListComp, ast.SetComp, ast.DictComp, ast.GeneratorExp, ast.NamedExpr, ast.Yield, ast.YieldFrom, ast.Await))
+                   for n in ast.walk(e.body))
+
+
+def inline_callable_aliases(tree):
+    """`pack = cls._INT32.pack` / `decode = KafkaCodec.decode_x` / `log_it = self._log` bound once in a function body
+    and only ever called: each `pack(a)` becomes `cls._INT32.pack(a)` and the binding goes.  The bound expression is an
+    attribute chain rooted at `cls`, at a name the function never binds (a module-level name), or `self.<method>` for a
+    method defined in this unit - evaluating it again at the call site yields the same callable."""
+    log = []
+    methods = {n.name for c in ast.walk(tree) if isinstance(c, ast.ClassDef) for n in c.body if isinstance(n, FUNC)}
+
+    def stable(e, local):
+        chain = []
+        while isinstance(e, ast.Attribute):
+            chain.append(e.attr)
+            e = e.value
+        if not isinstance(e, ast.Name) or not chain:
+            return False
+        if e.id == "self":
+            return len(chain) == 1 and chain[0] in methods
+        return e.id == "cls" or e.id not in local
+
+    for fn in [n for n in ast.walk(tree) if isinstance(n, FUNC)]:
+        local = _assigned_names(fn) | {a.arg for a in ast.walk(fn.args) if isinstance(a, ast.arg)} - {"cls"}
+        if "*scope*" in local:
+            continue
+        for i, st in enumerate(list(fn.body)):
+            if not (isinstance(st, ast.Assign) and len(st.targets) == 1 and isinstance(st.targets[0], ast.Name)
+                    and ((isinstance(st.value, ast.Attribute) and stable(st.value, local)) or _simple_lambda(st.value))):
+                continue
+            name = st.targets[0].id
+            uses = [n for n in ast.walk(fn) if isinstance(n, ast.Name) and n.id == name]
+            stores = [n for n in uses if not isinstance(n.ctx, ast.Load)]
+            if len(stores) != 1 or any(isinstance(a, ast.arg) and a.arg == name for a in ast.walk(fn)):
+                continue
+            if st not in fn.body:
+                continue
+            j = fn.body.index(st)
+            later = {id(n) for b in fn.body[j + 1:] for n in ast.walk(b)}
+            loads = [n for n in uses if isinstance(n.ctx, ast.Load)]
+            if not loads or any(id(n) not in later for n in loads):
+                continue
+            called = {id(c.func) for b in fn.body[j + 1:] for c in ast.walk(b) if isinstance(c, ast.Call)}
+            if any(id(n) not in called for n in loads):
+                continue
+
+            lam = st.value if isinstance(st.value, ast.Lambda) else None
+            if lam is not None:
+                ps = [a.arg for a in lam.args.args]
+                sites = [c for b in fn.body[j + 1:] for c in ast.walk(b) if isinstance(c, ast.Call) and isinstance(c.func, ast.Name)
+                         and c.func.id == name]
+                uses_of = {p: sum(1 for n in ast.walk(lam.body) if isinstance(n, ast.Name) and n.id == p) for p in ps}
+                if any(c.keywords or len(c.args) != len(ps) or any(isinstance(a, ast.Starred) for a in c.args) or
+                       any(not (isinstance(a, (ast.Name, ast.Constant)) or (_pure_arg(a) and uses_of[p] <= 1)) for p, a in zip(ps, c.args))
+                       for c in sites):
+                    continue
+
+            class R(ast.NodeTransformer):
+                def visit_Call(self, node):
+                    self.generic_visit(node)
+                    if isinstance(node.func, ast.Name) and node.func.id == name:
+                        import copy
+                        if lam is not None:
+                            m = dict(zip(ps, node.args))
+
+                            class S(ast.NodeTransformer):
+                                def visit_Name(self, n):
+                                    return copy.deepcopy(m[n.id]) if n.id in m and isinstance(n.ctx, ast.Load) else n
+                            return ast.copy_location(S().visit(copy.deepcopy(lam.body)), node)
+                        node.func = ast.copy_location(copy.deepcopy(st.value), node.func)
+                    return node
+            for b in fn.body[j + 1:]:
+                R().visit(b)
+            fn.body.remove(st)
+            if not fn.body:
+                fn.body.append(ast.Pass())
+            log.append("callable alias %s = %s replaced at its %d call sites in %s" % (name, ast.unparse(st.value), len(loads), fn.name))
+    if log:
+        ast.fix_missing_locations(tree)
     return log
 
 
@@ -1142,6 +1280,19 @@ def _leaf_arms(node):
     return out
 
 
+def _pure_test_value(e):
+    """an expression that can be moved from `flag = E` into `if E:` right there: comparisons / boolean combinations of
+    names, attributes, constants and calls of len/isinstance (no other calls)"""
+    for n in ast.walk(e):
+        if isinstance(n, ast.Call) and not (isinstance(n.func, ast.Name) and n.func.id in ("len", "isinstance", "bool")):
+            return False
+        if isinstance(n, (ast.Yield, ast.YieldFrom, ast.Await, ast.Lambda, ast.NamedExpr)):
+            return False
+    if isinstance(e, ast.Call) and isinstance(e.func, ast.Name) and e.func.id == "bool" and len(e.args) == 1:
+        e = e.args[0]
+    return isinstance(e, (ast.Compare, ast.BoolOp, ast.UnaryOp, ast.Name, ast.Attribute))
+
+
 def _decide(test, flag, value, sentinels):
     """Outcome of `test` (which mentions only the local `flag`) when flag was just assigned `value`: True/False, or
     None when it cannot be told from the syntax."""
@@ -1170,6 +1321,46 @@ def _decide(test, flag, value, sentinels):
         if isinstance(op, (ast.IsNot, ast.NotEq)):
             return not eq
     return None
+
+
+def _select_value(arms, b, fn, log, a):
+    """`if A: f = g   elif B: f = h   else: raise ...` immediately followed by one simple statement using `f`, which is
+    used nowhere else: the statement moves into the arms with the selected name in place (`return [g(x)]`)."""
+    assigning = []
+    var = None
+    for arm in arms:
+        last = arm[-1] if arm else None
+        if isinstance(last, ast.Assign) and len(last.targets) == 1 and isinstance(last.targets[0], ast.Name) and isinstance(
+                last.value, (ast.Name, ast.Constant)):
+            if var is not None and last.targets[0].id != var:
+                return False
+            var = last.targets[0].id
+            assigning.append(arm)
+        elif not _always_leaves(arm):
+            return False
+    if var is None or len(assigning) < 2:
+        return False
+    if any(isinstance(n, ast.NamedExpr) for n in ast.walk(b)):
+        return False
+    in_b = sum(1 for x in ast.walk(b) if isinstance(x, ast.Name) and x.id == var)
+    uses = sum(1 for x in ast.walk(fn) if isinstance(x, ast.Name) and x.id == var)
+    if in_b == 0 or uses != len(assigning) + in_b or any(isinstance(x, ast.Name) and x.id == var and not isinstance(x.ctx, ast.Load) for x in ast.walk(b)):
+        return False
+    if any(isinstance(x, ast.arg) and x.arg == var for x in ast.walk(fn)):
+        return False
+    # only a selected *callable*: a selected datum is followed by the rules' value analysis as it stands
+    called = sum(1 for c in ast.walk(b) if isinstance(c, ast.Call) and isinstance(c.func, ast.Name) and c.func.id == var)
+    if called != in_b:
+        return False
+    for arm in assigning:
+        value = arm.pop().value
+
+        class S(ast.NodeTransformer):
+            def visit_Name(self, n):
+                return ast.copy_location(copy.deepcopy(value), n) if n.id == var else n
+        arm.append(S().visit(copy.deepcopy(b)))
+    log.append("selected callable %s moved with its call into %d arms at line %d" % (var, len(assigning), getattr(a, "lineno", 0)))
+    return True
 
 
 def thread_flags(tree):
@@ -1203,15 +1394,32 @@ def thread_flags(tree):
                     tg = {l.targets[0].id for l in lasts}
                     if len(tg) == 1 and tg <= names:
                         flag = tg.pop()
+            if arms and not flag and isinstance(b, (ast.Return, ast.Expr, ast.Assign, ast.AugAssign)) and _select_value(arms, b, fn, log, a):
+                del stmts[i + 1]
+                continue
             if flag:
                 vals = [_decide(b.test, flag, arm[-1].value, sentinels) for arm in arms]
-                if all(v is not None for v in vals):
-                    uses = sum(1 for x in ast.walk(fn) if isinstance(x, ast.Name) and x.id == flag)
-                    drop = uses == len(arms) + sum(1 for x in ast.walk(b.test) if isinstance(x, ast.Name) and x.id == flag)
+                uses = sum(1 for x in ast.walk(fn) if isinstance(x, ast.Name) and x.id == flag)
+                n_test = sum(1 for x in ast.walk(b.test) if isinstance(x, ast.Name) and x.id == flag)
+                drop = uses == len(arms) + n_test
+                # a leaf that assigns a non-constant expression: only for a plain `flag` / `not flag` test of a flag used
+                # nowhere else - the leaf then ends in `if <expression>: BODY else: OTHER` (evaluated where it was assigned)
+                plain = isinstance(b.test, ast.Name) or (isinstance(b.test, ast.UnaryOp) and isinstance(b.test.op, ast.Not) and isinstance(
+                    b.test.operand, ast.Name))
+                neg = not isinstance(b.test, ast.Name)
+                general = plain and drop and any(v is not None for v in vals) and all(
+                    v is not None or _pure_test_value(arm[-1].value) for arm, v in zip(arms, vals))
+                if all(v is not None for v in vals) or general:
                     for arm, v in zip(arms, vals):
+                        last = arm[-1]
                         if drop:
                             arm.pop()
-                        arm.extend(copy.deepcopy(b.body if v else b.orelse))
+                        if v is not None:
+                            arm.extend(copy.deepcopy(b.body if v else b.orelse))
+                        else:
+                            t_body, t_else = (b.orelse, b.body) if neg else (b.body, b.orelse)
+                            arm.append(ast.fix_missing_locations(ast.copy_location(ast.If(
+                                test=last.value, body=copy.deepcopy(t_body) or [ast.Pass()], orelse=copy.deepcopy(t_else)), last)))
                         if not arm:
                             arm.append(ast.Pass())
                     del stmts[i + 1]
